@@ -198,7 +198,7 @@ def check_ps(rec, data, start, exp, w, size):
 def ps_enc_cases(tier, ti):
     token = PS_TOKENS[ti]
     for sw, enc, style, (q1, q2), payload, pre, trail in itertools.product(PS_SWITCHES, PS_ENC, PS_STYLE, PS_ARGQ, PS_PAYLOADS, PS_PRE, PS_TRAIL):
-        inv = token + b"".join(b" " + s for s in sw) + style + enc + b" " + q1 + payload + q2
+        inv = token + b"".join(b" " + s for s in sw) + style + enc + (b" ", b"  ", b"\t")[len(enc) % 3] + q1 + payload + q2
         arg_at = len(inv) - len(q1 + payload + q2)
         carets = [None] + [i for i in range(1, len(inv)) if tier == "thorough" or i % 3 == 1]
         for c in carets:
@@ -220,7 +220,7 @@ def ps_enc_cases(tier, ti):
 
 PLAIN_CMDS = [b" -c ls", b" -Command hostname", b" -nop -c ^l^s", b""]
 PLAIN_CTX = [(b"", b""), (b"'", b"'"), (b'"', b'"'), (b"('", b"')"), (b"'", b""), (b'"', b""), (b"('", b"")]
-PLAIN_PRE = [b"", b"x;", b"Invoke-Expression ", b"for /f %a in ", b"a=1;b=2&"]
+PLAIN_PRE = [b"", b"x;", b"Invoke-Expression ", b"for /f %a in ", b"a=1;b=2&", b"a,", b"x=", b"{", b"c:\\dir\\", b"cmd /k ", b"x /r "]
 PLAIN_POST = [b"", b" do echo %a", b";t"]
 
 
